@@ -198,6 +198,43 @@ pub fn run(args: &Args) -> Report {
                 }
             }
         }
+        // numeric fields set through the API to every boundary value, in fields that were loaded in hexadecimal and in
+        // decimal notation (a negative value of a hexadecimal signed field is written as two's complement)
+        for (k, hexa) in [true, false].into_iter().enumerate() {
+            let n = |v: i64| if hexa { format!("0x{v:X}") } else { v.to_string() };
+            let text = format!("ASAP2_VERSION 1 71\n/begin PROJECT p \"\"\n/begin MODULE m \"\"\n/begin MOD_PAR \"\" ECU_CALIBRATION_OFFSET {} /begin MEMORY_SEGMENT seg \"\" DATA FLASH INTERN {} {} {} {} {} {} {} /end MEMORY_SEGMENT /end MOD_PAR\n/begin MEASUREMENT x \"\" UBYTE NO_COMPU_METHOD 0 0 0 1 ECU_ADDRESS_EXTENSION {} SYMBOL_LINK \"sym\" {} /end MEASUREMENT\n/end MODULE\n/end PROJECT\n", n(16), n(256), n(32), n(1), n(2), n(3), n(4), n(5), n(127), n(8));
+            let Loaded::Ok(file, _) = load(&text, false) else {
+                rep.fail("generator", format!("0 {}", hex(text.as_bytes())), "numeric scenario does not load".into());
+                continue;
+            };
+            for (j, v) in [-1i64, i16::MIN as i64, i16::MAX as i64, i32::MIN as i64, i32::MAX as i64, -4096, 0, 255].into_iter().enumerate() {
+                let mut f = file.clone();
+                {
+                    let m = &mut f.project.module[0];
+                    if let Some(mp) = &mut m.mod_par {
+                        if let Some(o) = &mut mp.ecu_calibration_offset {
+                            o.offset = v as i32;
+                        }
+                        for seg in &mut mp.memory_segment {
+                            seg.offset = [v as i32, 0, -1, v as i32, 1];
+                        }
+                    }
+                    for me in &mut m.measurement {
+                        if let Some(e) = &mut me.ecu_address_extension {
+                            e.extension = v as i16;
+                        }
+                        if let Some(s) = &mut me.symbol_link {
+                            s.offset = v as i32;
+                        }
+                    }
+                }
+                rep.case(&(k, j, "numeric-edit"), true);
+                rep.bump("layout:edited-numbers");
+                if let Err((kind, detail)) = cycle_from_model(f, false, 3) {
+                    rep.fail(&kind, format!("0 {}", hex(text.as_bytes())), format!("after setting the signed fields of a file in {} notation to {v}: {detail}", if hexa { "hexadecimal" } else { "decimal" }));
+                }
+            }
+        }
         let _ = std::fs::remove_dir_all(&tmp);
     }
     for (i, (text, strict, family)) in texts.iter().enumerate() {
